@@ -1,5 +1,6 @@
 import PdfModel.Lemmas.PageTree
 import PdfModel.Generated.Lexical
+import PdfModel.Lemmas.PageTreeBytes
 
 /-!
   C07 — "Page n is the n-th leaf of the page tree; attributes come from nearest ancestor".
@@ -172,5 +173,162 @@ theorem constants_match_source :
   refine ⟨?_, ?_⟩
   · first | ((have _h : Generated.pageTreeDepth = 16 := (by decide +kernel)); intros; rfl) | fail "constants_match_source (C07): the model's PageTree.Tbl, PageTree.TreeRec, PageTree.page, PageTree.pageLimited does not match the source (Generated.pageTreeDepth, re-extracted from pdf/src)"
   · first | decide +kernel | fail "constants_match_source (C07): the model's statement does not match the source (Generated.pageTreeDepth, re-extracted from pdf/src)"
+
+end C07
+
+
+/-!
+## C07 at byte level: the object-table abstraction discharged
+
+`PageTreeB.writeDoc fmt t n` is a *file*: the header line and one revision written by the framework's writer model
+(`SaveBytes`: frames `k 0 obj … endobj` with bodies rendered by `Model/Serialize`, cross-reference stream, trailer,
+`startxref`) for the objects of the tree `t` — one dictionary per node with /Type, the /Parent link, /Kids in order, the
+accurate /Count and the inheritable attributes where `t` places them — under any numbering of the nodes by `1..n`, plus
+the catalog `n + 1`. `PageTreeB.getPageB` opens those bytes with the byte-level open path (`OpenBytes.openB`: header,
+`startxref`, cross-reference stream, table), follows trailer /Root → catalog /Pages, and runs the page-tree model with
+every node obtained by `OpenBytes.resolveB` (the lexer / parser models on the bytes at the object's offset) and the node
+reader `nodeOf`.
+
+Hypotheses that remain, all explicit:
+* `f32` text only through `fmt` / `env.parseReal` (no real number occurs in these documents: boxes are integers);
+  `env.decrypt = none`;
+* `NoFilter dec`: object storage is unfiltered (the filter chain — Flate, … — is third-party and never entered);
+* the file stays below 2³¹ bytes (`fileMax`, the range of the lexer theorems) and the parser fuel is at least three
+  times its length; `n ≤ 1 000 000` objects; markers (the values of the attributes) fit an `i32`;
+* height ≤ 16 (the depth budget), fewer than 2³¹ leaves (/Count is written as an `i32`).
+What is *not* discharged: `nodeOf` is a hand-written reading of `PagesNode::from_primitive` restricted to the six keys
+C07 observes, not the generated readers of `PageTree` / `Page` (`Generated/Schemas.lean`) — see `C07_bytes_full`.
+-/
+
+namespace C07
+open PageTree PageTreeB PdfLex OpenBytes SaveBytes RepBytes
+
+variable {R : Type}
+
+/-- **The byte-level statement**, for a reader `rd` of page-tree nodes: page `i` of the written file is the i-th leaf,
+    the page count is the number of leaves. The property asks for it with `rd` = the derived readers of `PageTree` and
+    `Page` behind the `PagesNode` dispatch (`Generated/Schemas.lean`, `Generated/Dispatch.lean`), projected to `Obj`.
+    `page_nth_bytes_partial` proves it for the hand-written `nodeOf`; `page_nth_bytes_of_reader` reduces the full
+    statement to one remaining obligation: that the generated reader agrees with `nodeOf` on the bodies `writeDoc`
+    writes (every other field of `Page` / `PageTree` is absent there, so each derived field reader returns its
+    default). -/
+def C07_bytes_full (rd : Prim R → Obj) : Prop :=
+  ∀ (fmt : R → List UInt8) (env : Env R), env.decrypt = none → ∀ (pfuel : Nat)
+    (dec : Dict R → List UInt8 → Out (List UInt8)), NoFilter dec → ∀ (id : Nat) (a : Attrs) (ks : List PTree) (n : Nat),
+    n ≤ 1000000 → (idsOf (.node id a ks)).Nodup → (∀ x ∈ idsOf (.node id a ks), 1 ≤ x ∧ x ≤ n) →
+    markersOK (.node id a ks) = true → height (.node id a ks) ≤ 16 → nLeaves (.node id a ks) ≤ 2147483647 →
+    ∀ (bytes : List UInt8), writeDoc fmt (.node id a ks) n = .ok bytes → bytes.length ≤ fileMax → 3 * bytes.length ≤ pfuel →
+    ∀ (rfuel lfuel : Nat), 16 < lfuel → ∀ (i : Nat),
+    getPageB rd env pfuel dec 2 (rfuel + 2) lfuel bytes i =
+      (if h : i < (leavesOf (.node id a ks)).length then .ok ((leavesOf (.node id a ks))[i]) else .err) ∧
+    numPagesB rd env pfuel dec 2 (rfuel + 2) lfuel bytes = .ok (leavesOf (.node id a ks)).length
+
+/-- the byte-level statement for every reader that agrees with `nodeOf` on the written bodies -/
+theorem page_nth_bytes_for (rd : Prim R → Obj)
+    (hrd : ∀ parent (t : PTree), ∀ q ∈ (objsOf parent t : List (Nat × Prim R)), rd q.2 = nodeOf q.2) (fmt : R → List UInt8) (env : Env R) (hd : env.decrypt = none) (pfuel : Nat)
+    (dec : Dict R → List UInt8 → Out (List UInt8)) (hdec : NoFilter dec) (id : Nat) (a : Attrs) (ks : List PTree)
+    (n : Nat) (hn : n ≤ 1000000) (hnd : (idsOf (.node id a ks)).Nodup)
+    (hrange : ∀ x ∈ idsOf (.node id a ks), 1 ≤ x ∧ x ≤ n) (hm : markersOK (.node id a ks) = true)
+    (hh : height (.node id a ks) ≤ 16) (hc : nLeaves (.node id a ks) ≤ 2147483647)
+    (bytes : List UInt8) (hw : writeDoc fmt (.node id a ks) n = .ok bytes)
+    (hsmall : bytes.length ≤ fileMax) (hpf : 3 * bytes.length ≤ pfuel) (rfuel lfuel : Nat) (hl : 16 < lfuel) (i : Nat) :
+    getPageB rd env pfuel dec 2 (rfuel + 2) lfuel bytes i =
+      (if h : i < (leavesOf (.node id a ks)).length then .ok ((leavesOf (.node id a ks))[i]) else .err) ∧
+    numPagesB rd env pfuel dec 2 (rfuel + 2) lfuel bytes = .ok (leavesOf (.node id a ks)).length := by
+  -- the save that produced the bytes
+  obtain ⟨b', inf, hs, rfl⟩ : ∃ b' inf, saveB fmt true (preparedDoc fmt (.node id a ks) n) = (b', .ok inf) ∧ b'.bytes = bytes := by
+    unfold writeDoc at hw
+    cases hsv : saveB fmt true (preparedDoc fmt (.node id a ks) n) with
+    | mk b' r =>
+      rw [hsv] at hw
+      cases r with
+      | ok inf => simp only [Out.ok.injEq] at hw; exact ⟨b', inf, rfl, hw⟩
+      | err => cases hw
+      | panic => cases hw
+      | oof => cases hw
+  obtain ⟨tb, T, hopen, hroot, hcat, hobjs⟩ := written_objects fmt env hd pfuel dec hdec (.node id a ks) n hn hnd hrange hm hc
+    b' inf hs hsmall hpf rfuel
+  -- trailer → catalog → /Pages
+  have hrootOf : rootOf env pfuel dec (rfuel + 2) b'.bytes 0 tb T = .ok id := by
+    have e : kRootK = SaveBytes.kRoot := by decide
+    simp only [rootOf, e, hroot, hcat, BuildBytes.catalogVal]
+    simp [dictGet, BuildBytes.kPagesT, BuildBytes.kVersion, SaveBytes.kType, PTree.id]
+  -- the table represents the tree
+  have htbl : ∀ q ∈ (objsOf none (.node id a ks) : List (Nat × Prim R)),
+      tblB rd env pfuel dec (rfuel + 2) b'.bytes 0 tb q.1 = some (nodeOf q.2) := by
+    intro q hq
+    simp only [tblB, hobjs q hq, hrd none _ q hq]
+  have hrep := represents_of_objs (tblB rd env pfuel dec (rfuel + 2) b'.bytes 0 tb) (.node id a ks) none hm htbl
+    (fun _ _ => trivial) rfl
+  have hsz : nLeaves (.node id a ks) < 4294967296 := by omega
+  have hload := root_loads _ id a ks lfuel hrep (by omega) hsz
+  have hpage := page_nth _ id a ks lfuel hrep hh hl hsz i
+  have hnum := num_pages_eq_leaves (.node id a ks) rfl
+  constructor
+  · simp only [getPageB, openPagesB, hopen, hrootOf, hload]
+    exact hpage
+  · simp only [numPagesB, openPagesB, hopen, hrootOf, hload, hnum]
+
+/-- **Page i of the written file is the i-th leaf — from the bytes**, with the hand-written node reader `nodeOf`. -/
+theorem page_nth_bytes_partial : C07_bytes_full (R := R) nodeOf := by
+  intro fmt env hd pfuel dec hdec id a ks n hn hnd hrange hm hh hc bytes hw hsmall hpf rfuel lfuel hl i
+  exact page_nth_bytes_for nodeOf (fun _ _ _ _ => rfl) fmt env hd pfuel dec hdec id a ks n hn hnd hrange hm hh hc bytes hw
+    hsmall hpf rfuel lfuel hl i
+
+/-- the full statement follows for every reader that agrees with `nodeOf` on the written bodies -/
+theorem page_nth_bytes_of_reader (rd : Prim R → Obj)
+    (hrd : ∀ parent (t : PTree), ∀ q ∈ (objsOf parent t : List (Nat × Prim R)), rd q.2 = nodeOf q.2) :
+    C07_bytes_full rd := by
+  intro fmt env hd pfuel dec hdec id a ks n hn hnd hrange hm hh hc bytes hw hsmall hpf rfuel lfuel hl i
+  exact page_nth_bytes_for rd hrd fmt env hd pfuel dec hdec id a ks n hn hnd hrange hm hh hc bytes hw hsmall hpf rfuel lfuel hl i
+
+/-- **Attributes of page i come from the nearest ancestor** — from the bytes: media box, crop box (falling back to the
+    media box) and resources of the page `get_page(i)` returns are the leaf's own value or that of the nearest
+    ancestor of the i-th leaf in the tree that was written. -/
+theorem attributes_nearest_bytes_partial (fmt : R → List UInt8) (env : Env R) (hd : env.decrypt = none) (pfuel : Nat)
+    (dec : Dict R → List UInt8 → Out (List UInt8)) (hdec : NoFilter dec) (id : Nat) (a : Attrs) (ks : List PTree)
+    (n : Nat) (hn : n ≤ 1000000) (hnd : (idsOf (.node id a ks)).Nodup)
+    (hrange : ∀ x ∈ idsOf (.node id a ks), 1 ≤ x ∧ x ≤ n) (hm : markersOK (.node id a ks) = true)
+    (hh : height (.node id a ks) ≤ 16) (hc : nLeaves (.node id a ks) ≤ 2147483647)
+    (bytes : List UInt8) (hw : writeDoc fmt (.node id a ks) n = .ok bytes)
+    (hsmall : bytes.length ≤ fileMax) (hpf : 3 * bytes.length ≤ pfuel) (rfuel lfuel : Nat) (hl : 16 < lfuel)
+    (i : Nat) (hi : i < (leavesOf (.node id a ks)).length) :
+    let l := (leavesOf (.node id a ks))[i]
+    let pg := getPageB nodeOf env pfuel dec 2 (rfuel + 2) lfuel bytes i
+    (pg.bind mediaBox = match nearest (·.mediaBox) l.a (l.parent :: l.anc) with | some b => .ok b | none => .err) ∧
+    (pg.bind cropBox = match nearest (·.cropBox) l.a (l.parent :: l.anc) with | some b => .ok b | none => mediaBox l) ∧
+    (pg.bind resources = match nearest (·.resources) l.a (l.parent :: l.anc) with | some b => .ok b | none => .err) := by
+  have := (page_nth_bytes_partial fmt env hd pfuel dec hdec id a ks n hn hnd hrange hm hh hc bytes hw hsmall hpf rfuel lfuel hl i).1
+  simp only [hi, dite_true] at this
+  simp only [this, Out.bind_ok]
+  exact ⟨media_box_nearest _, crop_box_nearest _, resources_nearest _⟩
+
+/-! ### non-vacuity at byte level: a document is written, its bytes are opened, its pages are found -/
+
+/-- root 3 (media box 11, resources 5) with leaf 1 (crop box 12) and node 2 with leaf 4 (media box 13): objects numbered
+    against the document order -/
+def exT : PTree :=
+  .node 3 ⟨some 11, none, some 5⟩ [.leaf 1 ⟨none, some 12, none⟩, .node 2 ⟨none, none, none⟩ [.leaf 4 ⟨some 13, none, none⟩]]
+def exEnv : Env (List UInt8) :=
+  { parseReal := fun t => some t, resolveLen := fun _ _ => .err, allowMissingEndobj := false, decrypt := none, fileOffset := 0 }
+def exDec : Dict (List UInt8) → List UInt8 → Out (List UInt8) :=
+  fun d raw => match dictGet d kFilter with | none => .ok raw | some _ => .err
+
+/-- `ok n` ↦ `n + 1`, anything else ↦ 0 -/
+def code : Out Nat → Nat
+  | .ok n => n + 1
+  | _ => 0
+
+example : (idsOf exT).Nodup ∧ (∀ x ∈ idsOf exT, 1 ≤ x ∧ x ≤ 4) ∧ markersOK exT = true ∧ height exT ≤ 16 := by decide
+/-- the model run on the written bytes (kernel evaluation of writer, open path, resolver, parser, page walk) -/
+example : (match writeDoc (R := List UInt8) id exT 4 with
+    | .ok bytes =>
+      (decide (bytes.length ≤ fileMax), code (numPagesB nodeOf exEnv (3 * bytes.length + 64) exDec 2 3 17 bytes),
+        (List.range 3).map fun i =>
+          match getPageB nodeOf exEnv (3 * bytes.length + 64) exDec 2 3 17 bytes i with
+          | .ok l => [l.id, code (mediaBox l), code (cropBox l), code (resources l)]
+          | _ => [])
+    | _ => (false, 0, [])) =
+    (true, 3, [[1, 12, 13, 6], [4, 14, 14, 6], []]) := by decide +kernel
 
 end C07
